@@ -1,14 +1,19 @@
 package main
 
 import (
-	"runtime"
+	"encoding/json"
 	"fmt"
+	"github.com/valinurovam/garagemq/admin"
 	"io"
 	"log"
+	"net/http"
+	"net/http/httptest"
 	"os"
+	"runtime"
 	"sort"
 	"strconv"
 	"strings"
+	"sync/atomic"
 	"time"
 
 	"github.com/sasha-s/go-deadlock"
@@ -23,7 +28,7 @@ import (
 
 type sessionCfg struct {
 	Rabbit bool   `json:"rabbit"`
-	Engine string `json:"engine"` // buntdb (in memory) | badger
+	Engine string `json:"engine"`         // buntdb (in memory) | badger
 	Auth   string `json:"auth,omitempty"` // password check mode: md5 (default) | bcrypt | plain
 	Disk   bool   `json:"disk,omitempty"` // buntdb on disk (sessions that restart the broker)
 	Dir    string `json:"-"`
@@ -33,24 +38,25 @@ type sessionCfg struct {
 var sessionUsers = [][2]string{{"guest", "guest"}, {"alice", "wonder"}}
 
 type stepResult struct {
-	Op     string   `json:"op"`
-	Frames []string `json:"frames"`
-	Snap   []string `json:"snap"`
-	Note   string   `json:"note,omitempty"` // WEDGED / TIMEOUT / client-side errors
-	Alloc  uint64   `json:"alloc,omitempty"` // bytes the process allocated during the step (hostile steps only)
-	Sent   int      `json:"sent,omitempty"`  // bytes the hostile op wrote
+	Op     string         `json:"op"`
+	Frames []string       `json:"frames"`
+	Snap   []string       `json:"snap"`
+	Note   string         `json:"note,omitempty"`  // WEDGED / TIMEOUT / client-side errors
+	Admin  map[string]int `json:"admin,omitempty"` // counters of the admin overview at quiescence (ADMIN steps)
+	Alloc  uint64         `json:"alloc,omitempty"` // bytes the process allocated during the step (hostile steps only)
+	Sent   int            `json:"sent,omitempty"`  // bytes the hostile op wrote
 }
 
 type session struct {
 	connBase uint64 // connections opened before the last restart: the new server numbers its connections from 1 again
 	rawSent  int
-	cfg     sessionCfg
-	srv     *server.Server
-	addr    string
-	clients map[int]*client
-	gone    map[int]bool // connections the harness expects the broker to have forgotten
-	nconn   int
-	settle  time.Duration
+	cfg      sessionCfg
+	srv      *server.Server
+	addr     string
+	clients  map[int]*client
+	gone     map[int]bool // connections the harness expects the broker to have forgotten
+	nconn    int
+	settle   time.Duration
 }
 
 func init() {
@@ -107,6 +113,53 @@ func newSession(cfg sessionCfg, settle time.Duration) (*session, error) {
 		return nil, err
 	}
 	return &session{cfg: cfg, srv: srv, addr: srv.VerifAddr(), clients: map[int]*client{}, gone: map[int]bool{}, settle: settle}, nil
+}
+
+var adminPanics int64
+
+// adminPoll serves every admin endpoint once, in-process (the handlers read the same server object an admin HTTP
+// client would reach); returns the overview counters
+func (s *session) adminPoll() map[string]int {
+	var counters map[string]int
+	for i, h := range []http.Handler{admin.NewOverviewHandler(s.srv), admin.NewQueuesHandler(s.srv), admin.NewExchangesHandler(s.srv),
+		admin.NewConnectionsHandler(s.srv), admin.NewChannelsHandler(s.srv), admin.NewBindingsHandler(s.srv)} {
+		rec := httptest.NewRecorder()
+		req := httptest.NewRequest("GET", "/?vhost=%2F", nil)
+		func() {
+			// net/http recovers a panicking handler (the request fails, the process lives): so does the poller, and
+			// counts it; a fatal runtime error (concurrent map access) is not recoverable and ends the process
+			defer func() {
+				if r := recover(); r != nil {
+					atomic.AddInt64(&adminPanics, 1)
+				}
+			}()
+			h.ServeHTTP(rec, req)
+		}()
+		if i == 0 {
+			var ov struct {
+				Counters map[string]int `json:"counters"`
+			}
+			if json.Unmarshal(rec.Body.Bytes(), &ov) == nil {
+				counters = ov.Counters
+			}
+		}
+	}
+	return counters
+}
+
+// startAdminPoller polls the admin endpoints continuously until stop is closed (read-only polling "meanwhile")
+func (s *session) startAdminPoller(stop chan struct{}) {
+	go func() {
+		for {
+			select {
+			case <-stop:
+				return
+			default:
+			}
+			s.adminPoll()
+			time.Sleep(200 * time.Microsecond)
+		}
+	}()
 }
 
 // restart stops the broker gracefully (every client connection has been dropped before) and boots a new server on
@@ -411,6 +464,9 @@ func (s *session) exec(op string) string {
 	}
 	if f[0] == "RESTART" {
 		return s.restart()
+	}
+	if f[0] == "ADMIN" { // read the admin endpoints (no frame is sent): the result is attached to the step
+		return ""
 	}
 	if f[0] == "ACCEPT" { // socket + protocol header only: the handshake is driven by STARTOK / TUNEOK / COPEN
 		s.nconn++
@@ -763,6 +819,15 @@ func (s *session) step(op string) stepResult {
 			r.Note += "; "
 		}
 		r.Note += q
+	}
+	if op == "ADMIN" {
+		r.Admin = s.adminPoll()
+	}
+	if n := atomic.SwapInt64(&adminPanics, 0); n > 0 {
+		if r.Note != "" {
+			r.Note += "; "
+		}
+		r.Note += fmt.Sprintf("ADMIN-PANIC(%d)", n)
 	}
 	if hostile {
 		runtime.ReadMemStats(&m1)
